@@ -136,6 +136,13 @@ func runAlloc(sw *shardWriter, j *jb, c allocCase, st *genStats) {
 		}()
 		ok = f()
 		allocs = testing.AllocsPerRun(5, func() { f() })
+		// a real allocation in the call shows on every measurement; a stray allocation by the runtime
+		// (background work on another goroutine) does not: re-measure and keep the minimum
+		for retry := 0; retry < 3 && allocs > 0; retry++ {
+			if a2 := testing.AllocsPerRun(5, func() { f() }); a2 < allocs {
+				allocs = a2
+			}
+		}
 	}()
 	tier := lastTier
 	j.reset()
